@@ -2,3 +2,5 @@ import KiraModel.Num
 import KiraModel.Model.Units
 import KiraModel.Model.Easing
 import KiraModel.Model.ClockTime
+import KiraModel.Model.Spatial
+import KiraModel.Model.SpatialScene
